@@ -203,11 +203,35 @@ def consumed_keys(fd):
     cls_inp keys)"""
     loops = literal_loop_names(fd)
     popped = set()
+    p0_ = au.params(fd)[1] if len(au.params(fd)) > 1 else 'inp'
+
+    def _is_filter(node):
+        return isinstance(node, ast.DictComp) and isinstance(
+            node.generators[0].iter, ast.Call) and ast.unparse(
+                node.generators[0].iter.func) in {f'{a_}.items'
+                                                  for a_ in aliases}
+    # names that stand for the input dictionary (itself, a copy, or the
+    # input without its '__class__' entry)
+    aliases = {p0_}
+    grew = True
+    while grew:
+        grew = False
+        for n in ast.walk(fd):
+            if isinstance(n, ast.Assign) and len(n.targets) == 1 and \
+                    isinstance(n.targets[0], ast.Name) and \
+                    n.targets[0].id not in aliases:
+                v = n.value
+                if _is_filter(v) or (isinstance(v, ast.Name) and
+                                     v.id in aliases) or (
+                        isinstance(v, ast.Call) and ast.unparse(v.func) in
+                        {'dict'} | {f'{a_}.copy' for a_ in aliases} and (
+                            not v.args or ast.unparse(v.args[0]) in aliases)):
+                    aliases.add(n.targets[0].id)
+                    grew = True
     for n in ast.walk(fd):
         if isinstance(n, ast.Call) and isinstance(n.func, ast.Attribute) and \
-                n.func.attr == 'pop' and ast.unparse(n.func.value) == \
-                (au.params(fd)[1] if len(au.params(fd)) > 1 else 'inp') \
-                and n.args:
+                n.func.attr == 'pop' and ast.unparse(n.func.value) in \
+                aliases and n.args:
             a = n.args[0]
             if isinstance(a, ast.Constant):
                 popped.add(a.value)
@@ -235,7 +259,7 @@ def consumed_keys(fd):
         if is_filter(v):
             remainder = True
         elif isinstance(v, ast.Name):
-            if v.id == p0:
+            if v.id in aliases:
                 remainder = True
             else:
                 via.append(v.id)
@@ -488,9 +512,16 @@ def rule_K3_K4(ctx):
               'and then the complex tag, using the literals of the writer '
               f'{wtags}', ctx.where(io, rj), sample={'tags': rtags})
     at = find("_t_ = _k_.split('__')[-1]", rj)
-    ok = len(at) == 1 and has(f'_d_ = getattr(np, {at[0][1]["_t_"]}[6:])',
-                              rj) and has(
-        '_v_ = np.asarray(_v_, dtype=_d_, order=__)', rj)
+    ok = False
+    if len(at) == 1:
+        from ..core.template import same as _same
+        for n_, b_ in find('_v_ = np.asarray(_v_, dtype=_d_, order=__)', rj):
+            dv = [k_.value for k_ in n_.value.keywords if k_.arg == 'dtype']
+            tv = ast.unparse(au.value_of(ast.Name(at[0][1]['_t_'],
+                                                  ast.Load()), rj))
+            if dv and _same(f'getattr(np, ({tv})[6:])',
+                            au.value_of(dv[0], rj)) is not None:
+                ok = True
     ctx.check('C17.K3.tags', 'JSON dtype recovered from the tag', ok,
               'array dtype is not read back from the `__array-<dtype>` tag '
               "(the tag is '__array-' + dtype name: 6 characters + '-')",
@@ -571,7 +602,8 @@ def rule_K3_K4(ctx):
     cl = find("_c_ = utils._KNOWN_CLASSES[_v_['__class__']]", des)
     ok = len(cl) == 1 and has(
         f'{dp[0]}[_k_] = {cl[0][1]["_c_"]}.from_dict({cl[0][1]["_v_"]})',
-        des) and has(f'_dict_deserialize({cl[0][1]["_v_"]})', des)
+        des) and (has(f'_dict_deserialize({cl[0][1]["_v_"]})', des) or
+                  has(f'_dict_deserialize({cl[0][1]["_v_"]}, **__)', des))
     ctx.check('C17.K4.recursion', '_dict_deserialize', ok,
               'de-serialisation does not dispatch on __class__ through the '
               'registry and recurse', ctx.where(io, des))
